@@ -10,6 +10,8 @@ pub struct Request {
     pub method: String,
     pub path: String,
     pub headers: Vec<(String, String)>,
+    /// the request body (read when a Content-Length is given; uploads of the CAS client)
+    pub body: Vec<u8>,
 }
 
 impl Request {
@@ -56,6 +58,7 @@ fn reason(status: u16) -> &'static str {
         200 => "OK",
         206 => "Partial Content",
         400 => "Bad Request",
+        403 => "Forbidden",
         404 => "Not Found",
         416 => "Range Not Satisfiable",
         _ => "Status",
@@ -72,22 +75,36 @@ fn serve(mut s: TcpStream, handler: Arc<Handler>) {
             Ok(0) | Err(_) => return,
             Ok(n) => buf.extend_from_slice(&tmp[..n]),
         }
-        if buf.len() > 1 << 16 {
+        if buf.len() > 1 << 26 {
             return;
         }
     }
-    let head = String::from_utf8_lossy(&buf).to_string();
+    let head_len = buf.windows(4).position(|w| w == b"\r\n\r\n").map(|p| p + 4).unwrap_or(buf.len());
+    let head = String::from_utf8_lossy(&buf[..head_len]).to_string();
     let mut lines = head.split("\r\n");
     let first = lines.next().unwrap_or("");
     let mut it = first.split(' ');
-    let req = Request {
+    let mut req = Request {
         method: it.next().unwrap_or("").to_string(),
         path: it.next().unwrap_or("").to_string(),
         headers: lines
             .take_while(|l| !l.is_empty())
             .filter_map(|l| l.split_once(':').map(|(k, v)| (k.trim().to_string(), v.trim().to_string())))
             .collect(),
+        body: vec![],
     };
+    if let Some(n) = req.header("content-length").and_then(|v| v.parse::<usize>().ok()) {
+        let head_end = buf.windows(4).position(|w| w == b"\r\n\r\n").map(|p| p + 4).unwrap_or(buf.len());
+        let mut body = buf[head_end..].to_vec();
+        while body.len() < n {
+            match s.read(&mut tmp) {
+                Ok(0) | Err(_) => return,
+                Ok(k) => body.extend_from_slice(&tmp[..k]),
+            }
+        }
+        body.truncate(n);
+        req.body = body;
+    }
     let resp = handler(&req);
     if resp.delay_ms > 0 {
         std::thread::sleep(Duration::from_millis(resp.delay_ms));
